@@ -25,6 +25,7 @@ type Param struct {
 	Type    string // concrete type name, or the name of the type parameter if Generic
 	Generic bool
 	Ref     bool
+	List    bool // the parameter is a list of Type ("T Liste", "Kom Liste"); used by operator overloads only
 }
 
 // Tok is one element of an alias pattern: a word or a placeholder <Param>.
@@ -414,16 +415,24 @@ func ResolveOverload(ovls []*Overload, ops []Operand) OverloadVerdict {
 				ok = false
 				break
 			}
+			ut := u.Type
+			if p.List { // a list parameter takes a list operand; what is compared / bound is the element type
+				if !strings.HasSuffix(ut, " Liste") {
+					ok = false
+					break
+				}
+				ut = strings.TrimSuffix(ut, " Liste")
+			}
 			if p.Generic {
 				if g, seen := generic[p.Type]; seen {
-					if g != u.Type {
+					if g != ut {
 						ok = false
 						break
 					}
 				} else {
-					generic[p.Type] = u.Type
+					generic[p.Type] = ut
 				}
-			} else if p.Type != u.Type {
+			} else if p.Type != ut {
 				ok = false
 				break
 			}
